@@ -29,9 +29,7 @@ class ViaAutoref:
 
     def __init__(self, A, bdd):
         self.A = A
-        ab = A.BDD.__new__(A.BDD)
-        ab._bdd = bdd
-        ab.vars = bdd.vars
+        ab = base.make_autoref(A, bdd)
         self.ab = ab
 
     def F(self, u):
